@@ -11,4 +11,5 @@ func genC04(g *gen) {
 	yes := func() bool { return true }
 	c03GenSendCases(g, g.pick(120, 3000), yes, 0)
 	c03GenPipeCases(g, g.pick(120, 3000), yes, true)
+	c03GenBigPipeCases(g, g.pickInts([]int{70000, 1048575}, []int{65534, 65535, 65536, 70000, 1048574, 1048575, 1048576, 2500000}), true)
 }
